@@ -97,9 +97,12 @@ SameCore(a, b) == /\ a.n = b.n /\ a.seed = b.seed /\ a.kids = b.kids /\ a.par = 
                   /\ a.rooted = b.rooted /\ \A x \in 1..a.n : a.key[x] = 0 \/ a.key[x] = b.key[x]
 Chain(e) == IF e.step > 1 /\ st.tid = e.tid /\ ~SameCore(st.g, e.pre) THEN V(PROP \o ".Chain", "state changed between logged calls") ELSE None
 
+\* the harness ends a history after a call that hung or left a state it suspects to be damaged; TLC confirms
+HarnessStop(e) == IF e.stopped /\ e.raised \notin {"Hang", "MemoryError", "RecursionError"} /\ WFClause(e.post) = "ok"
+                  THEN V(PROP \o ".HarnessStoppedOnWellFormedState", e.action) ELSE None
 Judge(e) ==
     IF WFClause(e.pre) # "ok" THEN (IF e.step = 1 THEN V(PROP \o ".StartWellFormed", WFClause(e.pre)) ELSE None)
-    ELSE (IF PROP = "C03" THEN JudgeC03(e) ELSE JudgeC07(e)) \o JudgeDrift(e)
+    ELSE (IF PROP = "C03" THEN JudgeC03(e) ELSE JudgeC07(e)) \o JudgeDrift(e) \o HarnessStop(e)
 
 Init == l = 1 /\ bad = <<>> /\ st = [tid |-> -1, g |-> <<>>]
 Next == /\ l <= Len(Tr)
